@@ -278,8 +278,11 @@ def run(tier, seed):
     return rep.finish(
         explanation="pyvc: the real source of Terminal.sdo_read / sdo_write against the contract of a conformant SDO "
         "server; the input space is split by region predicates: single-message uploads and expedited downloads are "
-        "proved for all values and mailbox sizes, the other regions are recorded findings",
-        trusted_base=["pyvc encoding (vc/pyvc)", "z3 5.1", "SDO server contract (ETG.1000.6)"], level="other")
+        "proved for all values and mailbox sizes, the other regions are recorded findings; the transport under the "
+        "server contract - Terminal.mbx_send and mbx_recv - is proved against the send / receive mailbox sync "
+        "managers for mails of every length the mailbox holds",
+        trusted_base=["pyvc encoding (vc/pyvc)", "z3 5.1", "SDO server contract (ETG.1000.6)",
+                      "mailbox sync manager contract (ETG.1000.4)"], level="other")
 
 
 def replay_file(path):
